@@ -369,6 +369,9 @@ func (vc *VC) execReturn(st *State, x *ast.ReturnStmt) {
 }
 
 func (vc *VC) execDefer(st *State, x *ast.DeferStmt) {
+	if vc.accum != nil && vc.loopDeferredRelease(st, x) {
+		return
+	}
 	d := deferred{call: x.Call, st: x}
 	// arguments are evaluated at defer time
 	if _, ok := unparen(x.Call.Fun).(*ast.FuncLit); !ok {
@@ -379,6 +382,47 @@ func (vc *VC) execDefer(st *State, x *ast.DeferStmt) {
 	st.defers = append(st.defers, d)
 }
 
+// accumCtx: the innermost enclosing loop flagged accumulates_locks (e.g. `for _, s := range shards { s.mu.RLock(); defer
+// s.mu.RUnlock() }`): its iterations may end holding a lock whose release they deferred.
+type accumCtx struct {
+	body     *ast.BlockStmt
+	deferred map[string]string // lock heap (lockR<id>) -> reference whose release this iteration deferred
+}
+
+// loopDeferredRelease handles `defer m.RUnlock(..)` as a direct statement of an accumulating loop's body.
+func (vc *VC) loopDeferredRelease(st *State, x *ast.DeferStmt) bool {
+	top := false
+	for _, s := range vc.accum.body.List {
+		if s == ast.Stmt(x) {
+			top = true
+		}
+	}
+	se, ok := unparen(x.Call.Fun).(*ast.SelectorExpr)
+	if !ok {
+		return false
+	}
+	fn, _ := vc.info.Uses[se.Sel].(*types.Func)
+	if fn == nil || fn.Name() != "RUnlock" {
+		if fn != nil && fn.Name() == "Unlock" {
+			panic(unsupported("deferred write-unlock inside a lock-accumulating loop"))
+		}
+		return false
+	}
+	if !top {
+		panic(unsupported("deferred unlock nested inside a statement of a lock-accumulating loop"))
+	}
+	id, ref := vc.lockIdent(st, se.X)
+	vc.evalArgs(st, x.Call)
+	hr := "lockR<" + id + ">"
+	if _, dup := vc.accum.deferred[hr]; dup {
+		panic(unsupported("two deferred unlocks of the same lock kind in one iteration"))
+	}
+	r := vc.heapGet(st, hr, ArrSort(SRef, SBool))
+	vc.oblige(st, "lock", "release", x.Pos(), sel(r, ref), "deferred read-unlock of "+id+" requires the read lock to be held")
+	vc.accum.deferred[hr] = ref
+	return true
+}
+
 func (vc *VC) runDefers(st *State) {
 	ds := st.defers
 	st.defers = nil
@@ -387,6 +431,27 @@ func (vc *VC) runDefers(st *State) {
 			return
 		}
 		d := ds[i]
+		if d.loopRelease != nil {
+			// the releases deferred by the iterations of a lock-accumulating loop run now: every lock the loop
+			// took is released (each iteration's acquisition was paired with its deferred release:
+			// lock.loopN_balanced), so the lock state is again the one before the loop - provided nothing else
+			// changed it since the loop was left
+			var cs []string
+			for _, m := range sortedKeys(boolKeys(d.loopRelease)) {
+				srt := ArrSort(SRef, SBool)
+				if strings.HasPrefix(m, "any") {
+					srt = SBool
+				}
+				if d.loopExit != nil {
+					cs = append(cs, eq(vc.heapGet(st, m, srt), d.loopExit[m]))
+				}
+				vc.heapSet(st, m, srt, d.loopRelease[m])
+			}
+			if len(cs) > 0 {
+				vc.oblige(st, "lock", "deferred_release", d.loopNode.Pos(), and(cs...), "locks taken after a lock-accumulating loop are released before its deferred releases run")
+			}
+			continue
+		}
 		if lit, ok := unparen(d.call.Fun).(*ast.FuncLit); ok {
 			vc.runBody(st, nil, lit, lit.Type, nil, lit.Body, vc.info, nil, nil)
 			continue
@@ -733,8 +798,24 @@ func (vc *VC) execLoop(st *State, node ast.Node, label string, assigned []types.
 		}
 	}
 	lockPre := map[string]string{}
+	accum := spec != nil && spec.Flags["accumulates_locks"]
+	var accumHeaps []string
+	if accum {
+		rel := map[string]string{}
+		for _, m := range mods {
+			if isLockHeap(m) {
+				srt := ArrSort(SRef, SBool)
+				if strings.HasPrefix(m, "any") {
+					srt = SBool
+				}
+				rel[m] = vc.heapGet(st, m, srt)
+				accumHeaps = append(accumHeaps, m)
+			}
+		}
+		st.defers = append(append([]deferred{}, st.defers...), deferred{loopRelease: rel, loopNode: node})
+	}
 	for _, m := range mods {
-		if isLockHeap(m) {
+		if isLockHeap(m) && !accum {
 			// built-in invariant: an iteration leaves the lock state as it found it (checked below)
 			srt := ArrSort(SRef, SBool)
 			if strings.HasPrefix(m, "any") {
@@ -751,6 +832,21 @@ func (vc *VC) execLoop(st *State, node ast.Node, label string, assigned []types.
 	// 4. assume invariant at an arbitrary iteration
 	vc.assumeInvariants(st, lc, entry)
 	v0 := vc.variant(st, lc, entry)
+	for _, m := range accumHeaps {
+		// lock-accumulating loop: the lock state was havocked with the other heaps (the invariant describes it);
+		// the iteration is compared with its own start
+		srt := ArrSort(SRef, SBool)
+		if strings.HasPrefix(m, "any") {
+			srt = SBool
+		}
+		lockPre[m] = vc.heapGet(st, m, srt)
+	}
+	saveAccum := vc.accum
+	if accum {
+		vc.accum = &accumCtx{body: loopBody(node), deferred: map[string]string{}}
+	} else {
+		vc.accum = nil // a nested ordinary loop is not accumulating
+	}
 
 	// 5. condition
 	c := "true"
@@ -770,6 +866,8 @@ func (vc *VC) execLoop(st *State, node ast.Node, label string, assigned []types.
 		fr.breaks[label], fr.conts[label] = nil, nil
 	}
 	end := bodyFn(body)
+	curAccum := vc.accum
+	vc.accum = saveAccum
 	if end != nil {
 		// 6. invariant preserved, variant decreases
 		vc.checkInvariants(end, lc, "inv.keep", entry)
@@ -780,7 +878,17 @@ func (vc *VC) execLoop(st *State, node ast.Node, label string, assigned []types.
 				if strings.HasPrefix(m, "any") {
 					srt = SBool
 				}
-				cs = append(cs, eq(vc.heapGet(end, m, srt), lockPre[m]))
+				want := lockPre[m]
+				if curAccum != nil {
+					if ref, ok := curAccum.deferred[m]; ok {
+						want = store(want, ref, "true") // taken in this iteration, release deferred
+					} else if strings.HasPrefix(m, "anyR<") {
+						if _, ok := curAccum.deferred["lockR<"+strings.TrimPrefix(m, "anyR<")]; ok {
+							continue
+						}
+					}
+				}
+				cs = append(cs, eq(vc.heapGet(end, m, srt), want))
 			}
 			vc.oblige(end, "lock", fmt.Sprintf("loop%d_balanced", lc.ord), node.Pos(), and(cs...), "each loop iteration releases the locks it takes")
 		}
@@ -795,8 +903,38 @@ func (vc *VC) execLoop(st *State, node ast.Node, label string, assigned []types.
 		fr.breaks[label], fr.conts[label] = saveBL, saveCL
 	}
 	fr.breaks[""], fr.conts[""] = saveB, saveC
-	return vc.merge(append([]*State{exit}, breaks...))
+	out := vc.merge(append([]*State{exit}, breaks...))
+	if accum && out != nil {
+		ds := append([]deferred{}, out.defers...)
+		for i := len(ds) - 1; i >= 0; i-- {
+			if ds[i].loopRelease != nil && ds[i].loopNode == node {
+				ex := map[string]string{}
+				for m := range ds[i].loopRelease {
+					srt := ArrSort(SRef, SBool)
+					if strings.HasPrefix(m, "any") {
+						srt = SBool
+					}
+					ex[m] = vc.heapGet(out, m, srt)
+				}
+				ds[i].loopExit = ex
+				break
+			}
+		}
+		out.defers = ds
+	}
+	return out
 }
+
+func loopBody(n ast.Node) *ast.BlockStmt {
+	switch x := n.(type) {
+	case *ast.ForStmt:
+		return x.Body
+	case *ast.RangeStmt:
+		return x.Body
+	}
+	return &ast.BlockStmt{}
+}
+
 
 // lexLess: v1 <_lex v0 with each component bounded below by 0 (signed).
 func lexLess(v1, v0 []*Scalar) string {
